@@ -1059,10 +1059,19 @@ fn get_quote_trait_params<'a>(input: &DataType, ctx: &'a ImplContext) -> QuoteTr
         these_gens: input.get_generics().split_for_impl().1.to_token_stream(),
         those_gens: ctx.struct_attr.ty.generics.to_token_stream(),
         impl_gens: impl_gens.split_for_impl().0.to_token_stream(), 
-        where_clause: input.get_attrs().where_attr(&ctx.struct_attr.ty).map(|x| {
-            let where_clause = &x.where_clause;
-            quote!(where #where_clause)
-        }), 
+        where_clause: {
+            let own = input.get_generics().where_clause.as_ref().filter(|w| !w.predicates.is_empty()).map(|w| {
+                let predicates = w.predicates.iter();
+                quote!(#(#predicates),*)
+            });
+            let instr = input.get_attrs().where_attr(&ctx.struct_attr.ty).map(|x| x.where_clause.to_token_stream());
+            match (own, instr) {
+                (Some(own), Some(instr)) => Some(quote!(where #own, #instr)),
+                (Some(own), None) => Some(quote!(where #own)),
+                (None, Some(instr)) => Some(quote!(where #instr)),
+                (None, None) => None,
+            }
+        }, 
         r: ctx.kind.is_ref().then_some(if ref_lts.is_empty() { quote!(&) } else { quote!(&'o2o) }) 
     }
 }
